@@ -67,6 +67,10 @@ pub fn run(args: &[String]) -> i32 {
     let mut cases: Vec<Vec<u8>> = vec![vec![]];
     cases.extend((0..=255u8).map(|a| vec![a]));
     cases.extend(long);
+    // sequences around the visitor's 4096-element preallocation clamp
+    for n in [4095usize, 4096, 4097, 5000] {
+        cases.push((0..n).map(|i| (i * 7) as u8).collect());
+    }
     serde_cases(&cases);
     0
 }
